@@ -551,7 +551,8 @@ def r9_use_order(c, facts):
     import c08
     R = c.rule('C10.R9', 'USE-ORDER: a name brought in by two imports is not silently resolved in favour of the later one')
     di = c.anchor(R, 'oal_compiler::resolve::declare_import')
-    if c08.branches_on_result(di, 'env::Env::declare') and c08.has_kind(di, 'InvalidIdentifier'):
+    fam_ = [di] + [x for x in facts.closures_of(di) if x.mir]
+    if any(c08.branches_on_result(g, 'env::Env::declare') and c08.has_kind(g, 'InvalidIdentifier') for g in fam_):
         c.ok(R, {'declare_import': 'the previous definition returned by Env::declare decides an error'})
     else:
         c.bad(R, 'declare_import:previous-definition-ignored', 'declare_import ignores the previous definition returned by Env::declare: with two unqualified imports that declare the same name the later one wins, so swapping two `use` statements changes the document')
